@@ -35,7 +35,7 @@ class LeanError(Exception):
 
 _lean_built = False
 
-def lean_build(targets=('TJ', 'tjdriver')):
+def lean_build(targets=('TJ', 'tjdriver', 'tjspec')):
     """lake build under a file lock; returns (ok, log)"""
     global _lean_built
     lock = open(os.path.join(LEAN, '.build.lock'), 'w')
